@@ -9,7 +9,7 @@ from rv.props import common as C
 from rv import refmodels as R, gen, oracles as O
 
 LEVEL = "exploration"
-RULE = ("greedy, round-robin, first-fit, FFD, best-fit, BFD, decreasing / two-thirds / three-quarters covers on tie-heavy, threshold (binsize divisible by 6; values at "
+RULE = ("bounded-exhaustive: every multiset of <= 5 items over 0..4 x 1..4 bins (greedy, round-robin), every SEQUENCE of <= 4-5 items over 0..C (first/best-fit) and multiset of <= 6 (decreasing variants) for C in {4,6}, every multiset of <= 6 items over 1..7 with binsize 6 and <= 4 items over 1..13 with binsize 12 (three covers); completion in grid_exhaustive_complete_shards; then greedy, round-robin, first-fit, FFD, best-fit, BFD, decreasing / two-thirds / three-quarters covers on tie-heavy, threshold (binsize divisible by 6; values at "
         "binsize/2, binsize/3, +-1), exact-fill, all-equal and random inputs, n <= 60, list presentation; sums compared as multisets, and bins as multisets of values where the "
         "rule leaves no freedom; non-trivial = >= 2 bins and (a repeated value or a threshold/exact-fill item); distinct on (algorithm, size, value sequence)")
 ASSUMPTIONS = ["the three-class reference follows the docstring/comments of cflz_covering.py and the cited paper's class definitions"]
@@ -23,7 +23,7 @@ ALGS = tuple(REF)
 def plan(tier, seed):
     n = 16 if tier == "quick" else 64
     b = 25 if tier == "quick" else 70
-    return [{"seed": seed * 1000 + i, "shard": i, "budget_s": b, "max_cases": 10 ** 7, "watchdog_s": b * 5 + 120} for i in range(n)]
+    return [{"seed": seed * 1000 + i, "shard": i, "nshards": n, "budget_s": b, "max_cases": 10 ** 7, "watchdog_s": b * 5 + 120} for i in range(n)]
 
 
 def judge(case, ctx):
@@ -79,8 +79,41 @@ def draw(rng, i):
     return C.draw_cover_case(rng, alg=alg, cls=rng.choice(["threshold", "threshold", "threshold", "equal", "random", "planted", "worst", "toosmall", "widerange"]), pres="list", nmax=nmax)
 
 
+def exhaustive_cases(spec):
+    """Bounded-exhaustive small scope (deterministic, sharded): every multiset (sequence for the online fits) of few small items."""
+    import itertools
+    big = spec.get("tier") == "thorough"
+    for k in (1, 2, 3, 4):
+        for ms in C.multisets(range(0, 5), 6 if big else 5):
+            for alg in ("greedy", "roundrobin"):
+                yield {"kind": "partition", "alg": alg, "k": k, "values": list(ms), "cls": "grid_exhaustive", "pres": "list", "pres_seed": 0}
+    for Cs in (4, 6):
+        for n in range(1, 6 if big else 5):
+            for seq in itertools.product(range(0, Cs + 1), repeat=n):
+                if Cs == 6 and n == 5 and not big:
+                    continue
+                for alg in ("ff", "bf"):
+                    yield {"kind": "pack", "alg": alg, "C": Cs, "values": list(seq), "cls": "grid_exhaustive", "pres": "list", "pres_seed": 0}
+        for ms in C.multisets(range(0, Cs + 1), 6):
+            for alg in ("ffd", "bfd"):
+                yield {"kind": "pack", "alg": alg, "C": Cs, "values": list(ms), "cls": "grid_exhaustive", "pres": "list", "pres_seed": 0}
+    for Cs in (6, 12):
+        for ms in C.multisets(range(1, Cs + 2), 6 if Cs == 6 else (5 if big else 4)):
+            for alg in ("decreasing", "twothirds", "threequarters"):
+                yield {"kind": "cover", "alg": alg, "C": Cs, "values": list(ms), "cls": "grid_exhaustive", "pres": "list", "pres_seed": 0}
+
+
 def run_shard(spec, rng, ctx):
     end = C.budget(spec)
+    grid_end = C.now() + 0.4 * float(spec.get("budget_s", 60))
+    complete = True
+    for case in C.sharded(exhaustive_cases(spec), spec):
+        if C.now() > grid_end:
+            complete = False
+            break
+        judge(case, ctx)
+        ctx.counters["grid_exhaustive_cases"] += 1
+    ctx.counters["grid_exhaustive_complete_shards"] += int(complete)
     i = 0
     while i < spec["max_cases"] and C.now() < end:
         judge(draw(rng, i), ctx)
